@@ -110,6 +110,16 @@ CLAIMED = {
  'text': "ActiveTags.tla states the property's per-category formula and the code's algorithm (schema regex, grouping, value objects, providers with cache, "
          'composite matcher); TLC proves algorithm == definition on every tag list of <=3/4 tags from a 30-tag pool x 9 current-value combinations; every list '
          'is replayed on real ActiveTagMatcher objects under 19 provider/matcher configurations and judged by TLC with the definitional formula only.'},
+    'C11': {'design_ref': 'DESIGN.md §7 C11',
+ 'note': 'Patterns of <=2/3 elements, histories of <=2 registrations exhaustive and a seeded sample up to 5; arbitrary user regexes, failing converters and '
+         'the split chosen between two untyped fields are not judged.',
+ 'technique': 'TLA+ spec (StepRegistry.tla) model-checked with TLC + TLC-judged traces of the real registry/matchers on TLC-generated histories',
+ 'text': 'StepRegistry.tla models step texts/patterns as word sequences (typed fields, named/unnamed/optional groups), the anchored leftmost-shortest match, '
+         'the four matcher renderings, and the registry state machine (Register with the same-definition short-cut and the ambiguity rule, UseMatcher, '
+         'ModuleEnd, Lookup); TLC proves no-ambiguous-pair, first-hit-of-type-then-generic, span and leftmost-shortest laws over all registration histories of '
+         'the bound; every history is replayed on a fresh real StepRegistry/StepMatcherFactory through real step modules (load_step_modules), all lookups are '
+         'made with real Step objects and the matches run against recording functions; TLC judges spans, values, names, dispatch, ambiguity and '
+         'same-definition rows.'},
 }
 
 PENDING_REASON = "check not built yet in this round (planned with the same TLA+/TLC technique, see DESIGN.md §7); not claimed until its check exists"
